@@ -25,7 +25,8 @@ RULE = ('Each case = 1-4 generated probe directories (independent spike counts 4
         'position, with the stable merge of the inputs by (time, probe, original index) - exactly-once '
         'conservation of (time, amplitude, template, cluster) tuples; per-probe id offsets are RECOVERED from '
         'the output and must be constant per probe with disjoint id ranges; cluster_probes and renumbered TSV '
-        'files point back to probe and original id; input directories content-hashed before/after. '
+        'files point back to probe and original id; input directories content-hashed before/after; a third of the cases merge the same probes twice in '
+        'one process and judge the second output. '
         'non-trivial = distinct merges with >= 2 probes and a cross-probe time tie, or >= 3 probes.')
 EXHAUSTIVE = {'quick': False, 'thorough': False}
 FLOORS = {'quick': {'evaluations': 380, 'distinct_nontrivial': 150},
@@ -135,6 +136,20 @@ def _run(case, ctx, d, which):
         ctx.violation('merge_raised', desc, 'Merger.merge() raised %r' % r.exc, dict(f0, exc=r.exc_name), tb=r.tb)
         return
     m = r.value
+    if which == 'C11' and case['seed'][-1] % 3 == 0:
+        # history: the same probe directories merged a second time in the same process (new Merger, new
+        # output directory) must give the same merged dataset; the second output is the one judged
+        call(m.close)
+        out = os.path.join(d, 'merged_again')
+        ctx.cell('merged_twice')
+        f0 = dict(f0, second_merge=True)
+        r = call(lambda: Merger(subdirs, out).merge())
+        after = [snapshot(sd) for sd in subdirs]
+        if not r.ok:
+            ctx.violation('merge_raised', desc, 'second Merger.merge() of the same probes raised %r' % r.exc,
+                          dict(f0, exc=r.exc_name), tb=r.tb)
+            return
+        m = r.value
     try:
         if which == 'C11':
             _oracle_c11(ctx, desc, f0, specs, out, m, order, probe_of, idx_in, before, after, audit)
